@@ -2138,5 +2138,6 @@ func httpwireExtra(t *tr) string {
 	x.connectShape(&out)
 	x.factories(&out)
 	x.httpwireRound3(&out)
+	x.httpwireRound4(&out)
 	return out.String()
 }
